@@ -18,6 +18,9 @@ package publicsuffix
 //                    symbolic labels x (3 or 4 bytes; thorough also 1) and y (2 bytes). This reaches long labels, deep rules, wildcards below and above, and exceptions.
 //   VerifC51_tlds    (B) every top-level label t of the rule list in both tiers (the complete top-level search range,
 //                    first and last node included): the domains t and x.t with x = 2 symbolic bytes (thorough 1..3).
+//   VerifC51_allrules (B) EVERY rule R of the list in both tiers: the domains R (concrete) and x.R with x = 1 symbolic byte (quick: x.R for
+//                    every wildcard / exception rule and every 4th other rule);
+//                    so every listed label, of every length up to the longest, is searched for at its place in the tree.
 //   VerifC51_sorted  concrete pass: every child range of the packed table is strictly increasing (precondition of find).
 //
 // Sensitivity (mut.sh):
@@ -37,6 +40,7 @@ func init() {
 	vfRegister("VerifC51_rules", VerifC51_rules)
 	vfRegister("VerifC51_sorted", VerifC51_sorted)
 	vfRegister("VerifC51_tlds", VerifC51_tlds)
+	vfRegister("VerifC51_allrules", VerifC51_allrules)
 }
 
 type c51rule struct {
@@ -385,6 +389,38 @@ func VerifC51_rules() {
 	}
 	if r.wild {
 		vfReach("wildcard-template")
+	}
+	c51check(labels)
+	vfReach("end")
+}
+
+// VerifC51_allrules (B): EVERY rule R of the embedded list (about 10100; VerifC51_rules samples them), in both tiers: the
+// domain R itself (without "!" / "*.") and the domain x.R with one symbolic byte x from [a-z-] (quick: x.R only for
+// wildcard rules, exception rules and every 4th other rule). "Domains built from every
+// embedded rule": every listed label of every length (the shortest and the longest of the list included) is looked up at
+// its own place in the tree at least once, and the step below every rule (wildcard children, exceptions, deeper rules
+// that share the suffix) is taken once with a symbolic label.
+func VerifC51_allrules() {
+	ri := c51pick("rule", len(rules))
+	r := c51parse(ri)
+	base := r.labels
+	if r.wild {
+		base = base[1:]
+	}
+	labels := base
+	if vfBool("sub") {
+		// quick: the step below the rule for every wildcard and exception rule and every 4th other rule; thorough: all
+		vfAssume(vfTier() > 0 || r.wild || r.exc || ri%4 == 0)
+		labels = append([]string{c51label("x", 1, true)}, base...)
+		vfReach("below-rule")
+	} else {
+		vfReach("rule-itself")
+	}
+	if r.exc {
+		vfReach("exception-rule")
+	}
+	if r.wild {
+		vfReach("wildcard-rule")
 	}
 	c51check(labels)
 	vfReach("end")
